@@ -273,6 +273,11 @@ theorem C15_keyed_covers_partial :
 theorem C15_keyed_covers_counterexample :
     "tokenizer" ∈ ChamVerif.Gen.cacheInfluencing ∧ "tokenizer" ∉ ChamVerif.Gen.cacheKeyed := by decide +kernel
 
+/-- **C15 (the key separates the option *values*)**: over all pairs of probed values of every option (not only one flip
+per option), two values that give different code have different keys — except for the options of D-15b -/
+theorem C15_key_separates_values :
+    ∀ u ∈ ChamVerif.Gen.cacheUnsoundValuePairs, ∃ k ∈ knownUnkeyed, (k ++ ": ").isPrefixOf u = true := by decide +kernel
+
 /-- nothing is keyed that the probe did not flip, and the control option (read by nothing) is neither keyed nor influencing -/
 theorem C15_probe_sane :
     "debug_marker" ∉ ChamVerif.Gen.cacheInfluencing ∧ "debug_marker" ∉ ChamVerif.Gen.cacheKeyed ∧
